@@ -63,6 +63,9 @@ pub struct Env {
     /// the backend legitimately trims old history (object store with aged versions and snapshots):
     /// the audit then goes through a fresh replica instead of walking the chain from nil
     pub trimmed: bool,
+    /// continuation order: the *other* replica edits and synchronizes before the interrupted one is
+    /// reopened and retries (C11 quantifies over "arbitrary further syncs by the same and other replicas")
+    pub other_first: bool,
     pub name: String,
     pub open: Box<dyn Fn(usize) -> Result<Box<dyn Server>, String>>,
     /// a handle for the final audit (fresh clone / fresh connection)
@@ -87,17 +90,43 @@ fn prior(env: &Env, a: &mut Rep, b: &mut Rep, accepted: &Accepted) -> Result<(),
 /// After the fault: reopen, retry, continue, quiesce, audit.
 fn continue_and_audit(env: &Env, a: &mut Rep, b: &mut Rep, accepted: &Accepted, out: &mut CaseOut, replay: &serde_json::Value, what: &str) -> bool {
     let sig = |s: &str| format!("{}/{s}", env.name);
-    let mut sa = match (env.open)(0) {
-        Ok(s) => rec(s, accepted),
-        Err(e) => {
-            out.violate(sig("reopen-failed"), format!("after {what}: backend cannot be reopened: {e}"), replay.clone());
-            return false;
-        }
-    };
     let mut sb = match (env.open)(1) {
         Ok(s) => rec(s, accepted),
         Err(e) => {
             out.violate(sig("reopen-failed"), format!("after {what}: backend cannot be reopened by the other client: {e}"), replay.clone());
+            return false;
+        }
+    };
+    if env.other_first {
+        // the other replica goes on before the interrupted one comes back
+        if let Err(e) = commit(b, &[AbsOp::Set(task(), "s0".into(), "B-first".into(), ts(4))]) {
+            out.inconclusive = Some(e);
+            return false;
+        }
+        let mut done = false;
+        let mut last = String::new();
+        for _ in 0..2 {
+            match block_on(b.sync(&mut sb, true)) {
+                Ok(()) => {
+                    done = true;
+                    break;
+                }
+                Err(e) => last = format!("{e:#}"),
+            }
+        }
+        if !done {
+            let class = if last.to_lowercase().contains("out of sync") { "out-of-sync" } else { "error" };
+            out.violate(sig(&format!("other-replica-cannot-sync/{class}")), format!("after {what}: the other replica's sync (before the interrupted one retried) fails: {last}"), replay.clone());
+            return false;
+        }
+        out.count("continued_with_the_other_replica_first", 1);
+    }
+    // only now is the interrupted client's handle reopened (in the other-first order the other
+    // replica's version is already there when it comes back)
+    let mut sa = match (env.open)(0) {
+        Ok(s) => rec(s, accepted),
+        Err(e) => {
+            out.violate(sig("reopen-failed"), format!("after {what}: backend cannot be reopened: {e}"), replay.clone());
             return false;
         }
     };
@@ -270,6 +299,7 @@ fn local_env(dir: TempDir) -> Env {
     let p2 = p.clone();
     Env {
         trimmed: false,
+        other_first: false,
         name: "local".into(),
         open: Box::new(move |_| block_on(ServerConfig::Local { server_dir: p.clone() }.into_server()).map_err(|e| e.to_string())),
         open_audit: Box::new(move || block_on(ServerConfig::Local { server_dir: p2.clone() }.into_server()).map_err(|e| e.to_string())),
@@ -291,11 +321,13 @@ fn local_db_fork(dir: &std::path::Path) -> Option<String> {
 
 fn local_case(i: u64, out: &mut CaseOut) {
     let fp = FAILPOINTS[(i % 3) as usize];
-    let abort = i / 3 == 1;
-    let replay = json!({"stratum": "local", "index": i, "failpoint": fp, "kind": if abort { "abort" } else { "error" }});
+    let abort = (i / 3) % 2 == 1;
+    let other_first = i >= 6;
+    let replay = json!({"stratum": "local", "index": i, "failpoint": fp, "kind": if abort { "abort" } else { "error" }, "other_first": other_first});
     let dir = TempDir::new("c11local");
     let rdir = dir.path().join("replicaA");
-    let env = local_env(dir);
+    let mut env = local_env(dir);
+    env.other_first = other_first;
     let accepted: Accepted = Default::default();
     let mut a = sqlite_rep(&rdir);
     let mut b = mem_rep();
@@ -371,20 +403,22 @@ impl DecisionSource for FaultAt {
 }
 
 fn cloud_case(i: u64, aged: bool, n_requests: &std::sync::atomic::AtomicUsize, out: &mut CaseOut) {
-    // i = k * 3 + kind
-    let k = (i / 3) as usize;
+    // i = (other_first * 40 + k) * 3 + kind
+    let other_first = i >= 120;
+    let k = ((i % 120) / 3) as usize;
     let kind = i % 3;
     let (decision, drop_client, kname) = match kind {
         0 => (1u8, false, "fail-before"),
         1 => (2u8, false, "perform-then-fail"),
         _ => (0u8, true, "client-dropped"),
     };
-    let replay = json!({"stratum": if aged { "object-store-aged" } else { "object-store" }, "index": i, "request": k, "kind": kname});
+    let replay = json!({"stratum": if aged { "object-store-aged" } else { "object-store" }, "index": i, "request": k, "kind": kname, "other_first": other_first});
     set_random_source(Some(Box::new(|| Some(200))));
     let world = std::rc::Rc::new(World::new());
     let (w1, w2) = (world.clone(), world.clone());
     let env = Env {
         trimmed: aged,
+        other_first,
         name: "object-store".into(),
         open: Box::new(move |c| Ok(Box::new(w1.plain(c)) as Box<dyn Server>)),
         open_audit: Box::new(move || Ok(Box::new(w2.plain(77)) as Box<dyn Server>)),
@@ -613,6 +647,7 @@ fn git_env_of2(w: std::rc::Rc<GitWorld>, name: &str, aged: bool) -> Env {
     let (w1, w2) = (w.clone(), w.clone());
     Env {
         trimmed: aged,
+        other_first: false,
         name: name.into(),
         open: Box::new(move |c| {
             let h = block_on(w1.cfg(c).into_server()).map_err(|e| format!("{e:#}"))?;
@@ -652,14 +687,14 @@ fn git_count(with_remote: bool, aged: bool) -> Result<Vec<String>, String> {
     Ok(subs)
 }
 
-fn git_case(with_remote: bool, aged: bool, k: usize, kind: &str, index: u64, out: &mut CaseOut) {
+fn git_case(with_remote: bool, aged: bool, other_first: bool, k: usize, kind: &str, index: u64, out: &mut CaseOut) {
     let name = match (with_remote, aged) {
         (true, false) => "git-remote",
         (false, false) => "git-local",
         (true, true) => "git-remote-aged",
         (false, true) => "git-local-aged",
     };
-    let replay = json!({"stratum": name, "index": index, "invocation": k, "kind": kind});
+    let replay = json!({"stratum": name, "index": index, "invocation": k, "kind": kind, "other_first": other_first});
     let w = match GitWorld::new(with_remote) {
         Ok(w) => std::rc::Rc::new(w),
         Err(e) => {
@@ -667,7 +702,8 @@ fn git_case(with_remote: bool, aged: bool, k: usize, kind: &str, index: u64, out
             return;
         }
     };
-    let env = git_env_of2(w.clone(), name, aged);
+    let mut env = git_env_of2(w.clone(), name, aged);
+    env.other_first = other_first;
     let accepted: Accepted = Default::default();
     let rdir = w.dir.path().join("replicaA");
     let mut a = sqlite_rep(&rdir);
@@ -743,7 +779,7 @@ fn git_case(with_remote: bool, aged: bool, k: usize, kind: &str, index: u64, out
     } else if out.violations.len() > before {
         // make the signature specific: which git step, which fault kind
         let v = out.violations.last_mut().unwrap();
-        v.signature = format!("{}@{kind}:{sub}", v.signature);
+        v.signature = format!("{}@{kind}:{sub}{}", v.signature, if other_first { "/other-first" } else { "" });
     }
 }
 
@@ -790,7 +826,7 @@ pub fn run(ctx: &Ctx) -> Outcome {
     let range = |n: u64| -> (u64, u64) { match only_idx { Some(i) => (i, i + 1), None => (0, n) } };
     let reps = ctx.tier.pick(1, 10);
     if want("local") {
-        let (lo, hi) = range(6);
+        let (lo, hi) = range(12);
         for _ in 0..reps {
             run_cases(&mut acc, "local", hi - lo, |i| {
                 let mut out = CaseOut::new();
@@ -799,31 +835,31 @@ pub fn run(ctx: &Ctx) -> Outcome {
             });
         }
         if only.is_none() {
-            acc.exhaustive_parts.push("local: all 3 failpoints x {error, process abort}".into());
+            acc.exhaustive_parts.push("local: all 3 failpoints x {error, process abort} x {interrupted replica retries first, other replica syncs first}".into());
         }
     }
     if want("object-store") {
         let max = std::sync::atomic::AtomicUsize::new(0);
-        let (lo, hi) = range(40 * 3);
+        let (lo, hi) = range(40 * 3 * 2);
         run_cases(&mut acc, "object-store", hi - lo, |i| {
             let mut out = CaseOut::new();
             cloud_case(i + lo, false, &max, &mut out);
             out
         });
         if only.is_none() {
-            acc.exhaustive_parts.push(format!("object-store: every request (0..{}) of the target sync x {{fail before, perform then fail, client dropped}}", max.load(std::sync::atomic::Ordering::Relaxed)));
+            acc.exhaustive_parts.push(format!("object-store: every request (0..{}) of the target sync x {{fail before, perform then fail, client dropped}} x {{interrupted replica retries first, other replica syncs first}}", max.load(std::sync::atomic::Ordering::Relaxed)));
         }
     }
     if want("object-store-aged") {
         let max = std::sync::atomic::AtomicUsize::new(0);
-        let (lo, hi) = range(40 * 3);
+        let (lo, hi) = range(40 * 3 * 2);
         run_cases(&mut acc, "object-store-aged", hi - lo, |i| {
             let mut out = CaseOut::new();
             cloud_case(i + lo, true, &max, &mut out);
             out
         });
         if only.is_none() {
-            acc.exhaustive_parts.push(format!("object-store-aged (expired versions, superseded snapshot, cleanup inside add_version): every request (0..{}) of the target sync x {{fail before, perform then fail, client dropped}}", max.load(std::sync::atomic::Ordering::Relaxed)));
+            acc.exhaustive_parts.push(format!("object-store-aged (expired versions, superseded snapshot, cleanup inside add_version): every request (0..{}) of the target sync x {{fail before, perform then fail, client dropped}} x {{interrupted replica retries first, other replica syncs first}}", max.load(std::sync::atomic::Ordering::Relaxed)));
             acc.require("aged_syncs_with_cleanup_deletions", 5, "the aged object-store stratum saw too few syncs whose add_version ran a deleting cleanup");
         }
     }
@@ -901,10 +937,17 @@ pub fn run(ctx: &Ctx) -> Outcome {
             picks.sort();
             picks.dedup();
             picks
-        } else {
+        } else if ctx.tier == crate::report::Tier::Quick {
             let (lo, hi) = range(total);
             (lo..hi).collect()
+        } else {
+            let (lo, hi) = range(2 * total);
+            (lo..hi).collect()
         };
+        if std::env::var("TCV_ONLY").is_ok() {
+            eprintln!("{name}: {n} git invocations in the target sync: {}", subcommands.join(" "));
+        }
+        let quick_orders = ctx.tier == crate::report::Tier::Quick && only_idx.is_none();
         // quick tier only: a loaded machine makes ~700 git executions per history very slow; cases
         // not started within the budget are skipped and reported (fewer histories explored, never
         // a verdict)
@@ -918,19 +961,26 @@ pub fn run(ctx: &Ctx) -> Outcome {
                 skipped.store(true, std::sync::atomic::Ordering::Relaxed);
                 return out;
             }
+            // indexes >= total: the same fault point, continued with the other replica first
             let i = sample[j as usize];
-            let k = 1 + (i as usize) / kinds.len();
-            let kind = kinds[(i as usize) % kinds.len()];
+            let (i0, mut other_first) = if i >= total { (i - total, true) } else { (i, false) };
+            let k = 1 + (i0 as usize) / kinds.len();
+            let kind = kinds[(i0 as usize) % kinds.len()];
+            if quick_orders {
+                // quick tier: one continuation order per fault point — the other replica first for
+                // every process stop and for every second error
+                other_first = kind.contains("kill") || i0 % 2 == 1;
+            }
             let mut out = CaseOut::new();
-            git_case(with_remote, aged, k, kind, i, &mut out);
+            git_case(with_remote, aged, other_first, k, kind, if other_first { i0 + total } else { i0 }, &mut out);
             if aged {
                 let n = out.counters.get("git_command_faults").copied().unwrap_or(0) + out.counters.get("child_kills").copied().unwrap_or(0);
                 out.count("aged_git_faults_in_snapshot_or_cleanup_sync", n);
             }
             out
         });
-        if only.is_none() && sample.len() as u64 == total && !skipped.load(std::sync::atomic::Ordering::Relaxed) {
-            acc.exhaustive_parts.push(format!("{name}: every git invocation (1..={n}) of the target sync x {kinds:?}"));
+        if only.is_none() && sample.len() as u64 == 2 * total && !skipped.load(std::sync::atomic::Ordering::Relaxed) {
+            acc.exhaustive_parts.push(format!("{name}: every git invocation (1..={n}) of the target sync x {kinds:?} x {{interrupted replica retries first, other replica syncs first}}"));
         }
     }
     if only.is_none() {
